@@ -10,6 +10,7 @@
 #include "SM/DriftMap.hpp"
 #include "SM/FokkerPlanckMap.hpp"
 #include "SM/Identity.hpp"
+#include "SM/DynamicRFKickMap.hpp"
 #include <random>
 using namespace vfps;
 typedef std::shared_ptr<PhaseSpace> psp;
@@ -34,6 +35,20 @@ __attribute__((noinline)) DriftMap* e_new_drift(psp* in, psp* out, std::vector<m
 __attribute__((noinline)) FokkerPlanckMap* e_new_fp(psp* in, psp* out, unsigned fptype, unsigned fptrack, timeaxis_t e1, unsigned dt)
   { return new FokkerPlanckMap(*in, *out, PhaseSpace::nx, PhaseSpace::ny, static_cast<FokkerPlanckMap::FPType>(fptype),
                                static_cast<FokkerPlanckMap::FPTracking>(fptrack), e1, static_cast<FokkerPlanckMap::DerivationType>(dt), nullptr); }
+__attribute__((noinline)) DynamicRFKickMap* e_new_drf_lin(psp* in, psp* out, meshaxis_t angle, double revpart, double fRF, meshaxis_t phasespread, meshaxis_t amplspread, meshaxis_t modampl, double modtimeinc, uint32_t steps, unsigned it)
+  { return new DynamicRFKickMap(*in, *out, PhaseSpace::nx, PhaseSpace::ny, angle, revpart, fRF, phasespread, amplspread, modampl, modtimeinc, steps, static_cast<SourceMap::InterpolationType>(it), false, nullptr); }
+__attribute__((noinline)) DynamicRFKickMap* e_new_drf_sin(psp* in, psp* out, double revpart, double V, double fRF, double V0, meshaxis_t phasespread, meshaxis_t amplspread, meshaxis_t modampl, double modtimeinc, uint32_t steps, unsigned it)
+  { return new DynamicRFKickMap(*in, *out, PhaseSpace::nx, PhaseSpace::ny, revpart, V, fRF, V0, phasespread, amplspread, modampl, modtimeinc, steps, static_cast<SourceMap::InterpolationType>(it), false, nullptr); }
+__attribute__((noinline)) std::vector<std::array<meshaxis_t,2>>* e_drf_past(DynamicRFKickMap* m) { return new std::vector<std::array<meshaxis_t,2>>(m->getPastModulation()); }
+__attribute__((noinline)) const meshaxis_t* e_vecdata(std::vector<std::array<meshaxis_t,2>>* v) { return v->data()->data(); }
+__attribute__((noinline)) size_t e_vecsize(std::vector<std::array<meshaxis_t,2>>* v) { return v->size(); }
+__attribute__((noinline)) std::queue<std::array<meshaxis_t,2>>* e_drf_calcmod(DynamicRFKickMap* m, uint32_t steps) { return new std::queue<std::array<meshaxis_t,2>>(m->__calcModulation(steps)); }
+__attribute__((noinline)) const meshaxis_t* e_queue_front(std::queue<std::array<meshaxis_t,2>>* q) { return q->front().data(); }
+__attribute__((noinline)) size_t e_queue_size(std::queue<std::array<meshaxis_t,2>>* q) { return q->size(); }
+__attribute__((noinline)) size_t e_drf_nnext(DynamicRFKickMap* m) { return m->_next_modulation.size(); }
+__attribute__((noinline)) size_t e_drf_npast(DynamicRFKickMap* m) { return m->_past_modulation.size(); }
+__attribute__((noinline)) const meshaxis_t* e_drf_front(DynamicRFKickMap* m) { return m->_next_modulation.front().data(); }
+__attribute__((noinline)) const meshaxis_t* e_drf_pastdata(DynamicRFKickMap* m) { return m->_past_modulation.data()->data(); }
 __attribute__((noinline)) Identity* e_new_identity(psp* in, psp* out) { return new Identity(*in, *out, nullptr); }
 }
 
@@ -41,7 +56,7 @@ struct Cfg { int n, nb, it, seed; float qmin, qmax, pmin, pmax; int fptype, fptr
 
 struct World {
     std::vector<meshdata_t>* d; psp* in; psp* out; KickMap* kmx; KickMap* kmy; std::vector<meshaxis_t>* offx; std::vector<meshaxis_t>* offy;
-    RFKickMap* rflin; RFKickMap* rfsin; DriftMap* drift; FokkerPlanckMap* fpm; Identity* idm; std::vector<meshaxis_t>* slip;
+    DynamicRFKickMap* drflin; DynamicRFKickMap* drfsin; RFKickMap* rflin; RFKickMap* rfsin; DriftMap* drift; FokkerPlanckMap* fpm; Identity* idm; std::vector<meshaxis_t>* slip;
     PhaseSpace::Position* pos; interpol_t* ic;
 };
 static World build(const Cfg& c, bool withmaps = true) {
@@ -66,6 +81,8 @@ static World build(const Cfg& c, bool withmaps = true) {
     w.drift = e_new_drift(w.in, w.out, w.slip, 1.3e9f, c.it);
     w.fpm = e_new_fp(w.in, w.out, c.fptype, c.fptrack, c.e1, c.dt);
     w.idm = e_new_identity(w.in, w.out);
+    w.drflin = e_new_drf_lin(w.in, w.out, c.angle, 1e-3, 4.99e8, 0.f, 0.f, 0.f, 1e-2, 3, c.it);
+    w.drfsin = e_new_drf_sin(w.in, w.out, 1e-3, 1.4e6, 4.99e8, 4.5e4, 2e-3f, 1e-3f, 0.05f, 1e-2, 3, c.it);
     return w;
 }
 
@@ -81,6 +98,15 @@ int main(int argc, char** argv) {
         snap_root("in", w.in); snap_root("out", w.out); snap_root("kmx", w.kmx); snap_root("kmy", w.kmy); snap_root("offx", w.offx); snap_root("offy", w.offy);
         snap_root("offx_data", w.offx->data()); snap_root("offy_data", w.offy->data());
         snap_root("rflin", w.rflin); snap_root("rfsin", w.rfsin); snap_root("drift", w.drift); snap_root("fpm", w.fpm); snap_root("idm", w.idm);
+        snap_root("drflin", w.drflin); snap_root("drfsin", w.drfsin);
+        { RFX* r = static_cast<RFX*>(static_cast<RFKickMap*>(w.drflin));
+          snap_val("off_linear", std::to_string((char*)&r->_linear - (char*)r)); snap_val("off_angle", std::to_string((char*)&r->_angle - (char*)r)); snap_val("off_revpart", std::to_string((char*)&r->_revolutionpart - (char*)r));
+          snap_val("off_VRF", std::to_string((char*)&r->_V_RF - (char*)r)); snap_val("off_fRF", std::to_string((char*)&r->_f_RF - (char*)r)); snap_val("off_V0", std::to_string((char*)&r->_V0 - (char*)r));
+          snap_val("off_syncphase", std::to_string((char*)&r->_syncphase - (char*)r)); snap_val("off_bl2phase", std::to_string((char*)&r->_bl2phase - (char*)r));
+          snap_val("off_lastbunch", std::to_string((char*)&r->_lastbunch - (char*)r));
+          DynamicRFKickMap* d = w.drflin;
+          snap_val("off_phasenoise", std::to_string((char*)&d->_phasenoise - (char*)d)); snap_val("off_amplnoise", std::to_string((char*)&d->_amplnoise - (char*)d)); snap_val("off_modampl", std::to_string((char*)&d->_modampl - (char*)d));
+          snap_val("off_modtimedelta", std::to_string((char*)&d->_modtimedelta - (char*)d)); snap_val("sizeof_rf", std::to_string(sizeof(RFKickMap))); snap_val("sizeof_drf", std::to_string(sizeof(DynamicRFKickMap))); }
         snap_root("data_in", (*w.in)->getData()); snap_root("data_out", (*w.out)->getData()); snap_root("pos", w.pos); snap_root("ic", w.ic); snap_root("slip", w.slip);
         snap_root("slip_data", w.slip->data());
         snap_root("axis0", (*w.in)->getAxis(0).get()); snap_root("axis1", (*w.in)->getAxis(1).get());
@@ -105,6 +131,8 @@ int main(int argc, char** argv) {
           snap_step("e_force", {"ret"}); snap_expect("rfs_force", r->getForce(), 4 * c.nb * c.n, true, 0); }
         { DriftMap* r = e_new_drift(w.in, w.out, w.slip, 2.5e9f, c.it); snap_step("e_new_drift", {A_p(w.in), A_p(w.out), A_p(w.slip), A_f(2.5e9f), A_i(c.it)});
           snap_step("e_force", {"ret"}); snap_expect("drift_force", r->getForce(), 4 * c.nb * c.n, true, 0); }
+        e_apply(w.drfsin); snap_step("e_apply", {A_p(w.drfsin)}); snap_expect("drfsin_out", (*w.out)->getData(), 4 * N);
+        { auto* v = e_drf_past(w.drfsin); snap_step("e_drf_past", {A_p(w.drfsin)}); snap_step("e_vecdata", {"ret"}); snap_expect("drf_past", v->data(), 8 * v->size(), true, 0); }
         for (int ft = 0; ft < 4; ft++) for (int dt = 3; dt <= 4; dt++) {
             FokkerPlanckMap* r = e_new_fp(w.in, w.out, ft, 1, 0.02f, dt); snap_step("e_new_fp", {A_p(w.in), A_p(w.out), A_i(ft), A_i(1), A_f(0.02f), A_i(dt)});
             e_apply(r); snap_step("e_apply", {"ret"}); snap_expect("fp_out", (*w.out)->getData(), 4 * N); }
@@ -128,6 +156,8 @@ int main(int argc, char** argv) {
             dumpf(fo, "force", km->getForce(), (size_t)c.nb * c.n);
         } else if (what == "rflin") { auto r = e_new_rf_lin(w.in, w.out, c.angle, (float)in.d("fRF", 0, 5e8), c.it); m = r; dumpf(fo, "force", r->getForce(), (size_t)c.nb * c.n);
         } else if (what == "rfsin") { auto r = e_new_rf_sin(w.in, w.out, (float)in.d("revpart", 0, 1e-3), (float)in.d("V", 0, 1e6), (float)in.d("fRF", 0, 5e8), (float)in.d("V0", 0, 1e4), c.it); m = r; dumpf(fo, "force", r->getForce(), (size_t)c.nb * c.n);
+        } else if (what == "drflin") { auto r = e_new_drf_lin(w.in, w.out, c.angle, 1e-3, (float)in.d("fRF", 0, 5e8), 0.f, 0.f, 0.f, 0.01, 3, c.it); m = r; dumpf(fo, "force", r->getForce(), (size_t)c.nb * c.n);
+        } else if (what == "drfsin") { auto r = e_new_drf_sin(w.in, w.out, (float)in.d("revpart", 0, 1e-3), (float)in.d("V", 0, 1e6), (float)in.d("fRF", 0, 5e8), (float)in.d("V0", 0, 1e4), 0.f, 0.f, 0.f, 0.01, 3, c.it); m = r; dumpf(fo, "force", r->getForce(), (size_t)c.nb * c.n);
         } else if (what == "drift") { auto sl = in.fv("slip"); auto r = e_new_drift(w.in, w.out, &sl, (float)in.d("E0", 0, 1e9), c.it); m = r; dumpf(fo, "force", r->getForce(), (size_t)c.nb * c.n);
         } else if (what == "fp") { m = e_new_fp(w.in, w.out, c.fptype, c.fptrack, c.e1, c.dt);
         } else if (what == "identity") { m = e_new_identity(w.in, w.out);
